@@ -77,8 +77,8 @@ class Env:
         self.numeric = {}                      # native mode: name -> (diff array, scale array)
         self.comps = {}
         self.varnames = {}                     # element name -> (lo, hi)
-        self.path_conds = []                   # current path condition [(SymBool, taken)]
-        self.pins = {}                         # var name -> exact value forced by an equality path
+        self._path_conds = []                  # current path condition [(SymBool, taken)] of the running env.explore
+        self._pins = {}                        # var name -> exact value forced by an equality path
         self.functions = set()                 # functions under contract touched (module.Class.method)
         self.assumptions = set()
         self.notes = []
@@ -97,6 +97,32 @@ class Env:
         else:
             self.xp = np
             self.pi = np.pi
+
+    # path condition = decisions of the whole-job pass (outer) + those of the running env.explore
+    @property
+    def path_conds(self):
+        return [(c, b) for k, c, b in S.PATH.outer_taken] + self._path_conds
+
+    @path_conds.setter
+    def path_conds(self, v):
+        outer = len(S.PATH.outer_taken)
+        self._path_conds = list(v)[outer:] if len(v) >= outer and all(
+            v[i][0] is S.PATH.outer_taken[i][1] for i in range(outer)) else list(v)
+
+    @property
+    def pins(self):
+        out = {}
+        for k, c, b in S.PATH.outer_taken:
+            if isinstance(c, S.SymBool) and c.op == '==' and b:
+                pin = _solve_pin(c.val)
+                if pin:
+                    out[pin[0]] = pin[1]
+        out.update(self._pins)
+        return out
+
+    @pins.setter
+    def pins(self, v):
+        self._pins = dict(v)
 
     # ------------------------------------------------------------------ variables
     def is_log(self, name):
@@ -230,6 +256,10 @@ class Env:
 
     # ------------------------------------------------------------------ obligations
     def _new(self, prop, name, kind):
+        if S.PATH.outer_taken:
+            # obligations of a whole-job pass carry the decisions taken so far in their name (one obligation per path)
+            ot = ";".join("%s=%s" % (repr(c)[:40], "T" if b else "F") for k, c, b in S.PATH.outer_taken)
+            name = "%s @path(job: %s)" % (name, ot) if " @path(" not in name else name.replace(" @path(", " @path(job: %s; " % ot, 1)
         o = Obl(prop, name, kind)
         o.path = [(repr(c), b) for c, b in self.path_conds] or None
         self.obls.append(o)
@@ -380,7 +410,34 @@ class Env:
         rng = random.Random(_stable_seed(self.seed, "w", len(d.p)))
         best = None
         found = 0
-        for t in range(tries or self.max_witness_tries):
+        # previous-state variables "P.<name>[i][j]..." and their current counterparts: besides independent random values,
+        # structured previous states are tried - the same point, its negative, its arrays reversed or transposed (states
+        # that agree with the current one in norms, sums or sorted content, which random sampling never produces)
+        byname = {S.A.names[a]: a for a in vars_}
+        prev = {}
+        for nm, a in byname.items():
+            if nm.startswith("P.") and nm[2:] in byname:
+                prev[a] = nm[2:]
+        shapes = {}
+        for a, cur in prev.items():
+            base = cur.split("[")[0]
+            idx = tuple(int(x) for x in re.findall(r"\[(\d+)\]", cur))
+            sh = shapes.setdefault(base, [0] * len(idx))
+            if len(sh) == len(idx):
+                for k_, i_ in enumerate(idx):
+                    sh[k_] = max(sh[k_], i_ + 1)
+
+        def structured(kind, cur):
+            base = cur.split("[")[0]
+            idx = [int(x) for x in re.findall(r"\[(\d+)\]", cur)]
+            sh = shapes.get(base, [])
+            if kind == "reversed" and idx and len(sh) == len(idx):
+                idx = [sh[k_] - 1 - i_ for k_, i_ in enumerate(idx)]
+            elif kind == "transposed" and len(idx) == 2 and len(sh) == 2 and sh[0] == sh[1]:
+                idx = idx[::-1]
+            return base + "".join("[%d]" % i_ for i_ in idx)
+        plans = ([None] * 2 + ["same", "negated", "reversed", "transposed"] if prev and not tries else []) + [None] * (tries or self.max_witness_tries)
+        for plan in plans:
             env = {}
             named = dict(self.pins)
             for a in vars_:
@@ -394,20 +451,36 @@ class Env:
                     v = float(Fraction(v).limit_denominator(1000)) if abs(v) > 0.05 else float("%.3g" % v)
                 env[a] = v
                 named[nm] = v
+            if plan is not None:
+                for a, cur in prev.items():
+                    src = byname.get(structured(plan, cur) if plan in ("reversed", "transposed") else cur)
+                    if src is None:
+                        continue
+                    v = -env[src] if plan == "negated" else env[src]
+                    env[a] = v
+                    named[S.A.names[a]] = v
             for keep, tied in ties:
                 if keep in env and tied in env:
                     env[tied] = env[keep]
                     named[S.A.names[tied]] = env[keep]
             try:
                 if not self._path_ok(env):
+                    if plan is not None and os.environ.get("OASVERIF_DEBUG_WITNESS"):
+                        for c_, b_ in self.path_conds:
+                            if isinstance(c_, S.SymBool):
+                                print("  plan %s: cond %s wanted %s value %r" % (plan, repr(c_)[:80], b_, S.evalf(c_.val, env)))
                     continue
                 val = S.evalf(d, env)
+                if plan is not None and os.environ.get("OASVERIF_DEBUG_WITNESS"):
+                    print("  plan %s: path ok, value %r of %s" % (plan, val, S.show(d, 4)[:120]))
                 # scale: sum of absolute monomial values
                 sc = 0.0
                 cache = {}
                 for m, c in d.p.items():
                     sc = max(sc, abs(S.evalf(RF({m: c}), env, cache)))
-            except (S.Undefined, OverflowError, ZeroDivisionError, ValueError):
+            except (S.Undefined, OverflowError, ZeroDivisionError, ValueError) as ex_:
+                if plan is not None and os.environ.get("OASVERIF_DEBUG_WITNESS"):
+                    print("  plan %s: exception %r" % (plan, ex_))
                 continue
             if isinstance(val, complex) or val != val:
                 continue
@@ -717,19 +790,19 @@ class Env:
         if not self.sym:
             yield [], fn()
             return
-        saved = list(self.path_conds)
-        saved_pins = dict(self.pins)
+        saved = list(self._path_conds)
+        saved_pins = dict(self._pins)
         for taken, res in S.explore(fn):
-            self.path_conds = saved + [(c, b) for k, c, b in taken]
-            self.pins = dict(saved_pins)
+            self._path_conds = saved + [(c, b) for k, c, b in taken]
+            self._pins = dict(saved_pins)
             for k, c, b in taken:
                 if isinstance(c, S.SymBool) and c.op == '==' and b:
                     pin = _solve_pin(c.val)
                     if pin:
-                        self.pins[pin[0]] = pin[1]
+                        self._pins[pin[0]] = pin[1]
             yield self.path_conds, res
-        self.path_conds = saved
-        self.pins = saved_pins
+        self._path_conds = saved
+        self._pins = saved_pins
 
 
 def _solve_pair(d):
@@ -856,7 +929,7 @@ class Handle:
             self.last_frame = [(n, idx) for n in self.in_names for idx in np.ndindex(*self.shape[n])
                                if vec[n][idx] is not before[n][idx] and not S.iszero(vec[n][idx] - before[n][idx])]
             if self.first_call is None:
-                self.first_call = (ins, {k: np.array(v, dtype=object) for k, v in outs.items()}, list(S.PATH.taken))
+                self.first_call = (ins, {k: np.array(v, dtype=object) for k, v in outs.items()}, list(S.PATH.outer_taken) + list(S.PATH.taken))
             return {k: np.array(v, dtype=object).view(S.SymArray) for k, v in outs.items()}
         vals = {n: np.array(np.broadcast_to(np.asarray(ins[n], dtype=float), self.shape[n])) for n in self.in_names}
         before = {n: v.copy() for n, v in vals.items()}
@@ -941,6 +1014,9 @@ def _taken_ok(taken, env):
     for key, cond, b in taken:
         if isinstance(cond, S.SymBool):
             v = S.evalf(cond.val, env)
+            if abs(v) < 1e-6:
+                # close to the boundary: float cancellation (e.g. |a - b| written as sqrt((a - b)^2)) decides nothing
+                v = float(S.evalf(cond.val, env, None, MP))
             truth = abs(v) < 1e-12 if cond.op == '==' else (v > 0 if cond.op == '>' else v >= 0)
             if truth != b:
                 return False
